@@ -588,8 +588,8 @@ fn run(ctx: &mut Ctx) {
     }
     // long regions: counters of 13, 16 and 17 bits
     let counts: Vec<usize> = if quick { vec![8191, 8192, 65535, 65536, 65541] } else { vec![4095, 4096, 8191, 8192, 8193, 32768, 65535, 65536, 65537, 65541, 131072, 131077] };
-    ctx.bound("long_regions", format!("regions of N minimal (8-byte) custom tags + end tag for N in {:?}; regions of 64 KiB, 512 KiB and 1 MiB made of one large tag, one 16-byte tag and the end tag; same seams and oracle", counts));
-    let huge = Arena::new(300);
+    ctx.bound("long_regions", format!("regions of N minimal (8-byte) custom tags + end tag for N in {:?}; regions of 64 KiB, 512 KiB, 1 MiB, 1 MiB + 24 / + 32, 3 MiB and 16 MiB made of one large tag, one 16-byte tag and the end tag; same seams and oracle", counts));
+    let huge = Arena::new(4200);
     for &n in &counts {
         let mut pl = vec![0u8; 8 * n + 8];
         for i in 0..n {
@@ -599,7 +599,7 @@ fn run(ctx: &mut Ctx) {
         wr32(&mut pl, 8 * n + 4, 8);
         ctx.leaf(|| J::obj().set("body", "long-region/minimal-tags").set("tags", n).set("payload_len", pl.len()), |ctx| exec_region(ctx, &huge, &pl, true));
     }
-    for total in [65536usize, 512 << 10, 1 << 20] {
+    for total in [65536usize, 512 << 10, 1 << 20, (1 << 20) + 24, (1 << 20) + 32, 3 << 20, 16 << 20] {
         for modtype in [0x1337u32, 3] {
             let bigsize = total - 24;
             let mut pl = vec![0u8; total];
